@@ -68,6 +68,16 @@ func (r *run) checkC11(d *delivery, cl opClass, accepted bool, i int) {
 				if W > 0 && has("bet") {
 					bad("bet-offered", "bet offered while a wager stands")
 				}
+				// "never offered in the opposite situations": a stack below
+				// the minimum bet under every reading of it (the big blind;
+				// the dealer blind when there is no big blind)
+				mlo := r.cfg.BB
+				if mlo == 0 {
+					mlo = r.cfg.DealerBlind
+				}
+				if has("bet") && S < mlo {
+					bad("bet-offered-below-minimum-bet", fmt.Sprintf("bet offered with %d behind, minimum bet %d", S, mlo))
+				}
 				if W > 0 && S > W+R && S >= M && !has("raise") {
 					bad("raise-missing", fmt.Sprintf("wager %d stands, stack %d > %d + min raise %d", W, S, W, R))
 				}
